@@ -32,11 +32,32 @@ def shape_from_counts(truth, files, names, exists):
     return {"truth": truth, "files": dict(zip(KINDS, files)), "names": dict(zip(KINDS, names)), "exists": exists}
 
 
+# how the command line spells every file it names (the project directory is also $HOME): absolute | `~/x.py` | `~/x.py`
+# while the working directory holds a directory literally named `~` | relative to the working directory | through a
+# symlinked directory.  A shape without "spelling" is spelled absolute.
+SYNC_SPELLINGS = ["tilde", "plain", "relative", "tilde-decoy", "symlinked-dir"]
+
+
+def assign_spellings(shapes, decisions):
+    """one spelling per shape, cycling separately inside each decision class (reject / run x names complete or not) so
+    that every class is run under every spelling"""
+    counters = collections.Counter()
+    for s, d in zip(shapes, decisions):
+        key = (d["decision"], d["names_complete"])
+        s["spelling"] = SYNC_SPELLINGS[counters[key] % len(SYNC_SPELLINGS)]
+        counters[key] += 1
+
+
 def cli_point(shape):
     """run the real CLI on that argument shape; returns (ok, what, facts)"""
-    root = tempfile.mkdtemp(prefix="doctrans-verif-cli.")
+    root = os.path.realpath(tempfile.mkdtemp(prefix="doctrans-verif-cli."))
+    work = os.path.realpath(tempfile.mkdtemp(prefix="doctrans-verif-cwd."))
+    spelling = shape.get("spelling") or "plain"
     try:
         scn = L.gen_scenario(random.Random(7), runs=1, allow_known=False)
+        # one fixed, plain project: whatever else the scenario generator draws is pinned here
+        scn.update(body=None, wide=None, truth_edit=False, with_returns=False, files=None, argv_seed=None, receiver=None,
+                   style=None, tilde=False, symlink=False)
         scn["truth"] = shape["truth"]
         scn["given"] = list(KINDS)
         scn["targets"] = {k: {"pre": "agreeing", "n_sur": 0, "position": "after", "trailing_newline": True, "sur_seed": 1, "members": 0}
@@ -45,25 +66,39 @@ def cli_point(shape):
         paths = proj["paths"]
         if not shape["exists"]:
             os.remove(paths[shape["truth"]])
+        cwd = root if spelling == "relative" else work
+        if spelling == "tilde-decoy":
+            os.mkdir(os.path.join(work, "~"))
+        if spelling == "symlinked-dir":
+            os.symlink(root, root + ".link")
+
+        def spell(p):
+            rel = os.path.relpath(p, root)
+            return {"tilde": os.path.join("~", rel), "tilde-decoy": os.path.join("~", rel), "relative": os.path.join(".", rel),
+                    "symlinked-dir": os.path.join(root + ".link", rel)}.get(spelling, p)
         optn = {"argparse_function": ("--argparse-function", "--argparse-function-name"), "class": ("--class", "--class-name"),
                 "function": ("--function", "--function-name")}
         argv = ["sync", "--truth", shape["truth"]]
         for k in KINDS:
             for j in range(shape["files"][k]):
-                argv += [optn[k][0], paths[k] if j == 0 else os.path.join(root, "%s_%d.py" % (k, j))]
+                argv += [optn[k][0], spell(paths[k] if j == 0 else os.path.join(root, "%s_%d.py" % (k, j)))]
             for j in range(shape["names"][k]):
                 argv += [optn[k][1], scn["names"][k]]
-        before = L.snapshot(root)
-        r = L.run_cli(argv)
-        after = L.snapshot(root)
+        before, wbefore = L.snapshot(root), L.snapshot(work)
+        r = L.run_cli(argv, cwd=cwd, extra_env={"HOME": root})
+        after, wafter = L.snapshot(root), L.snapshot(work)
         rejected = r["rc"] == 2 and "usage:" in r["stderr"]
+        if wafter != wbefore:
+            return False, "%s invocation (files spelled %s) wrote outside the project, into the working directory: %s" % (
+                "rejected" if rejected else "accepted", spelling, sorted(set(wafter) - set(wbefore)) or sorted(wafter)), r
         if rejected:
             if before != after:
                 return False, "rejected invocation touched the file system", r
             return True, "rejected", r
         if r["rc"] != 0:
             last = [l for l in r["stderr"].strip().split("\n") if l][-1:] or [""]
-            return False, "accepted invocation ended with an internal error: %s" % last[0][:160], r
+            return False, "accepted invocation%s ended with an internal error: %s" % (
+                "" if spelling == "plain" else " (files spelled %s)" % spelling, last[0][:160]), r
         for f, b in after.items():
             try:
                 ast.parse(b.decode())
@@ -72,6 +107,9 @@ def cli_point(shape):
         return True, "ran", r
     finally:
         shutil.rmtree(root, ignore_errors=True)
+        shutil.rmtree(work, ignore_errors=True)
+        if os.path.islink(root + ".link"):
+            os.remove(root + ".link")
 
 
 def _cli_point_star(shape):
@@ -624,11 +662,13 @@ def oracle(rng, tier):
         shapes = rng.sample(all_shapes, 90)
         exhaustive = False
     md = model_decisions(shapes)
+    assign_spellings(shapes, md)
     with concurrent.futures.ProcessPoolExecutor(max_workers=14) as ex:
         res = list(ex.map(_cli_point_star, shapes, chunksize=4))
     seen = set()
     for s, d, (ok, what) in zip(shapes, md, res):
         hist["cli:%s:%s" % (d["decision"], "names-complete" if d["names_complete"] else "names-incomplete")] += 1
+        hist["cli:%s:spelled-%s" % (d["decision"], s.get("spelling"))] += 1
         want_reject = d["decision"] == "reject"
         if want_reject != (what == "rejected"):
             failures.append({"case": {"cli_shape": s}, "what": "model decision %s but the command line %s" % (d["decision"], what), "class": None})
